@@ -11,7 +11,7 @@ PROPS = ["C%02d" % i for i in range(1, 21)]
 
 def sync(d):
     os.makedirs(d, exist_ok=True)
-    subprocess.run(["rsync", "-a", "--delete", "--exclude", ".git", "--exclude", ".vcache", "--exclude", ".vev", REPO + "/", d + "/"], check=True)
+    subprocess.run(["rsync", "-a", "--delete", "--exclude", ".git", "--exclude", ".vcache", "--exclude", ".vev", "--exclude", "_build", REPO + "/", d + "/"], check=True)
 
 
 def env(d):
